@@ -63,7 +63,7 @@ fn mos_toml_path<P: Into<PathBuf>>(
     root: Option<&Path>,
     starting_path: P,
 ) -> MosResult<Option<PathBuf>> {
-    let starting_path = starting_path.into().canonicalize().unwrap();
+    let starting_path = starting_path.into().canonicalize()?;
     let mut path = starting_path.as_path();
     loop {
         let toml = path.join("mos.toml");
